@@ -243,6 +243,99 @@ func TestZZVShellDecision(t *testing.T) {
 }
 
 // ---------------------------------------------------------------------------------------------------------------
+// request sequences on ONE live executor (Shell.tla part H): the decision must not depend on earlier requests
+
+type zzvHistStep struct {
+	A struct {
+		Pw string `json:"pw"`
+		Ok bool   `json:"ok"`
+	} `json:"a"`
+}
+
+type zzvHistIn struct {
+	Paths []struct {
+		Steps []zzvHistStep `json:"steps"`
+	} `json:"paths"`
+}
+
+func zzvHistPassword(class string) string {
+	switch class {
+	case "match":
+		return zzvPassword
+	case "prefix":
+		return zzvPassword[:7]
+	case "suffix":
+		return zzvPassword[8:]
+	case "longer":
+		return zzvPassword + "x"
+	case "wrong":
+		return "nope"
+	}
+	return ""
+}
+
+func TestZZVShellHistory(t *testing.T) {
+	var in zzvHistIn
+	zzvLoad(t, "ZZV_IN", &in)
+	root, mark := zzvSandbox(t)
+	zzvStub(filepath.Join(root, "bin", "ls"), zzvStubRecord)
+	hash, err := bcrypt.GenerateFromPassword([]byte(zzvPassword), bcrypt.MinCost)
+	if err != nil {
+		t.Fatal(err)
+	}
+	var wg sync.WaitGroup
+	jobs := make(chan int)
+	steps := 0
+	var mu sync.Mutex
+	for w := 0; w < zzvEnvInt("ZZV_WORKERS", 6); w++ {
+		wg.Add(1)
+		go func() {
+			defer wg.Done()
+			for pi := range jobs {
+				ex := NewExecutor(Config{Enabled: true, Whitelist: []string{"ls"}, PasswordHash: string(hash)})
+				var seq []string
+				for si, st := range in.Paths[pi].Steps {
+					seq = append(seq, st.A.Pw)
+					tag := fmt.Sprintf("h%d-%d", pi, si)
+					meta := &ShellMeta{Command: "ls", Password: zzvHistPassword(st.A.Pw), Env: map[string]string{"ZZV_CASE": tag}}
+					s, err := ex.NewSession(context.Background(), meta)
+					started := false
+					if err == nil {
+						if serr := s.Start(); serr == nil {
+							started = true
+							select {
+							case <-s.Done():
+							case <-time.After(60 * time.Second):
+								t.Errorf("zzv: stub of %s did not exit", tag)
+							}
+						}
+						s.Close()
+						ex.ReleaseSession()
+					}
+					mu.Lock()
+					steps++
+					mu.Unlock()
+					zzvEmit("step", map[string]any{"tag": tag, "seq": append([]string(nil), seq...), "pw": st.A.Pw, "started": started, "want": st.A.Ok})
+				}
+			}
+		}()
+	}
+	for i := range in.Paths {
+		jobs <- i
+	}
+	close(jobs)
+	wg.Wait()
+	b, _ := os.ReadFile(mark)
+	ran := map[string]int{}
+	for _, line := range strings.Split(string(b), "\n") {
+		if f := strings.Fields(line); len(f) == 2 {
+			ran[f[0]]++
+		}
+	}
+	zzvEmit("summary", map[string]any{"paths": len(in.Paths), "steps": steps, "ran": ran})
+}
+
+// ---------------------------------------------------------------------------------------------------------------
 // concurrent streams through the real Handler
 
 type zzvRecorder struct {
@@ -402,7 +495,8 @@ func TestZZVShellTrace(t *testing.T) {
 
 	// openStream opens one shell stream (scripted: a plain streaming "hold" session); when the session was
 	// acknowledged it returns the function that ends it (how: 0 own exit, 1 client close, 2 both), else nil
-	openStream := func(rng *mrand.Rand, scripted bool) func(how int) {
+	// scripted: 0 random, 1 plain "hold", 2 whitelisted command missing from PATH, 3 "hold" with a bad work dir
+	openStream := func(rng *mrand.Rand, scripted int) func(how int) {
 		idMu.Lock()
 		nextID++
 		sid := nextID
@@ -413,7 +507,7 @@ func TestZZVShellTrace(t *testing.T) {
 			t.Error(err)
 			return nil
 		}
-		interactive := !scripted && rng.Intn(3) == 0
+		interactive := scripted == 0 && rng.Intn(3) == 0
 		code, hpub := h.HandleStreamOpen(peer, sid, sid+1000, interactive, pub)
 		if code != 0 {
 			t.Errorf("zzv: stream open refused: %d", code)
@@ -440,10 +534,17 @@ func TestZZVShellTrace(t *testing.T) {
 		}
 		meta := &ShellMeta{Command: "hold"}
 		sel := 7
-		if !scripted {
-			sel = rng.Intn(8)
+		switch scripted {
+		case 0:
+			sel = rng.Intn(9)
+		case 2:
+			sel = 0
+		case 3:
+			sel = 8
 		}
 		switch sel {
+		case 8:
+			meta.WorkDir = filepath.Join(root, "no-such-dir") // passes validation, takes a slot, exec fails
 		case 0:
 			meta.Command = "nothere" // whitelisted, but no such executable: slot taken, start fails, slot returned
 		case 1:
@@ -529,7 +630,7 @@ func TestZZVShellTrace(t *testing.T) {
 	}
 
 	oneStream := func(rng *mrand.Rand) {
-		if finish := openStream(rng, false); finish != nil {
+		if finish := openStream(rng, 0); finish != nil {
 			time.Sleep(time.Duration(rng.Intn(16)) * time.Millisecond)
 			finish(rng.Intn(3))
 		}
@@ -541,21 +642,30 @@ func TestZZVShellTrace(t *testing.T) {
 	}
 	// scripted prologue of every round (max >= 2): fill all slots, let the client close one stream and wait until
 	// both of its release paths are through, then ask for two more sessions: only one slot is free
-	prologue := func(rng *mrand.Rand) {
+	prologue := func(rng *mrand.Rand, round int) {
 		if max < 2 {
 			return
 		}
+		// (a) a failed start WHILE another session holds a slot: the slot it took must come back exactly once; then
+		//     sessions up to the limit, and one more that must be refused (judged on the counter and on live processes)
 		var fs []func(int)
-		for i := 0; i < max; i++ {
-			fs = append(fs, openStream(rng, true))
+		fs = append(fs, openStream(rng, 1))
+		observe()
+		openStream(rng, 2+round%2) // whitelisted but not startable: missing executable / bad work dir
+		observe()
+		for i := 1; i < max; i++ {
+			fs = append(fs, openStream(rng, 1))
 		}
 		observe()
+		fs = append(fs, openStream(rng, 1)) // beyond the limit
+		observe()
+		// (b) the client closes one stream; when both of its release paths are through exactly one slot is free
 		if fs[0] != nil {
 			fs[0](1)
 			time.Sleep(20 * time.Millisecond)
 		}
 		observe()
-		fs = append(fs[1:], openStream(rng, true), openStream(rng, true))
+		fs = append(fs[1:], openStream(rng, 1), openStream(rng, 1))
 		observe()
 		for i, f := range fs {
 			if f != nil {
@@ -567,7 +677,7 @@ func TestZZVShellTrace(t *testing.T) {
 
 	seed := zzvSeed()
 	for round := 0; round < rounds; round++ {
-		prologue(mrand.New(mrand.NewSource(seed*7919 + int64(round))))
+		prologue(mrand.New(mrand.NewSource(seed*7919+int64(round))), round)
 		var wg sync.WaitGroup
 		stop := make(chan struct{})
 		var owg sync.WaitGroup
